@@ -397,7 +397,9 @@ RTRLIB_EXPORT int pfx_table_validate_r(struct pfx_table *pfx_table, struct pfx_r
 	}
 
 	while (!pfx_table_elem_matches(node->data, asn, prefix_len)) {
-		if (lrtr_ip_addr_is_zero(lrtr_ip_addr_get_bits(
+		if (lvl >= (prefix->ver == LRTR_IPV6 ? 128U : 32U))
+			node = NULL; // every address bit is used up, no node can lie below this one
+		else if (lrtr_ip_addr_is_zero(lrtr_ip_addr_get_bits(
 			    prefix, lvl++,
 			    1))) //post-incr lvl, trie_lookup is performed on child_nodes => parent lvl + 1
 			node = trie_lookup(node->lchild, prefix, prefix_len, &lvl);
